@@ -63,11 +63,20 @@ def gen_case(rng: Rng, i: int, tier: str):
         ops.append({"op": r.pick(["writestr", "writef"]), "name": name, "content": {"tex": r.pick(["rand", "text", "code", "crc0"]), "len": ln, "seed": r.randrange(1 << 30)}, "as": "bytes", "bio": "bytesio"})
     hdr = r.wpick([(3, "enc"), (1, "raw"), (4, "crypt")])
     sess = {"mode": rng.sub("mode").pick(["w", "w", "x"]), "chain": chain, "password": password, "header": hdr, "header_via": r.pick(["ctor", "setter"]), "ops": ops}
+    ra = rng.sub("append")
+    append = None
+    if ra.chance(0.35):
+        append = {"chain": ra.pick(["default", "default", "same"]),
+                  "op": {"op": "writestr", "name": "secret-appended-%s/%s-name" % (gen.gen_component(ra, "ascii"), gen.gen_component(ra, "ascii")),
+                         "content": {"tex": ra.pick(["text", "code"]), "len": ra.pick([24, 100, 1000]), "seed": ra.randrange(1 << 30)}, "as": "bytes"}}
     extra = rw.gen_header_extra(rng.sub("header_extra"), hdr, p=0.4)
     if extra:
         sess["header_extra"] = extra
     wrong = r.pick(["different", "prefix", "case", "none", "suffix"])
-    return {"session": sess, "knobs": knobs, "rng": r.randrange(1 << 30), "wrong": wrong, "open": r.pick(["stream", "path", "anon"])}
+    case = {"session": sess, "knobs": knobs, "rng": r.randrange(1 << 30), "wrong": wrong, "open": r.pick(["stream", "path", "anon"])}
+    if append:
+        case["append"] = append
+    return case
 
 
 def _windows(data, w=24):
@@ -132,6 +141,36 @@ def run_case(case):
         model = rw.pairs(added)
     _random.setstate(saved_state)
     plain = {n: d for n, d in model}
+    # ---------------- (0) an append session under the same password protects what it adds ----------------
+    if case.get("append"):
+        ap = case["append"]
+        sess_a = {"mode": "a", "chain": sess["chain"] if ap["chain"] == "same" else None, "password": password, "header": sess["header"],
+                  "header_via": sess["header_via"], "ops": [ap["op"]]}
+        with Seams(fs=fs, blocksize=knobs["block"], memlimit=knobs["chunk"], clock=SimClock(tick=0.001), rand=rand):
+            try:
+                added_a, err_a = rw.run_write_session(fs, sess_a, "path", knobs["bufsize"])
+            except rw.Rejected:
+                added_a, err_a = [], None
+        if err_a is not None:
+            viol("write_failed", "append", "append session with the same password raised %r" % (err_a,), error=type(err_a).__name__)
+        elif added_a:
+            img_a = fs.get(rw.SIM_PATH).snapshot()
+            res["probes"]["append_session_under_password"] = 1
+            for n, d in rw.pairs(added_a):
+                if any(w in img_a for w in _windows(d)):
+                    viol("plaintext_in_archive", "image", "after an append with the password the archive contains member %r in the clear" % n, which="append")
+            try:
+                aa = ref7z.read(img_a, password, decode_data=True)
+                for fi, f in enumerate(aa.main["folders"] if aa.main and aa.main["folders"] else []):
+                    if ref7z.reader.folder_unpack_size(f) > 0 and not any(c["id"] == RC.M_AES for c in f["coders"]):
+                        viol("folder_not_encrypted", "image", "after an append with the password: folder %d has coders %r - no 7zAES coder" % (
+                            fi, [RC.NAMES.get(c["id"]) for c in f["coders"]]), which="append")
+                if len(set(bytes(iv) for iv in aa.ivs)) != len(aa.ivs):
+                    viol("iv_reused", "image", "initialisation vectors repeat between the sessions of one archive", which="append")
+                if [(m.name, m.data) for m in aa.members if m.kind != "dir"] != model + rw.pairs(added_a):
+                    viol("right_password_fails", "append", "after the append the archive does not hold the members of both sessions")
+            except Exception as e:
+                viol("reference_reader_failed", "ref7z", "reference reader cannot parse the archive after the append: %r" % e, which="append")
     # ---------------- (1) nothing leaks ----------------
     for k, img in enumerate(images):
         for n, d in model:
